@@ -148,10 +148,16 @@ func (x *Exec) invoke(cfg *Config, f *Frame, tg target, args []Val, dest ssa.Val
 			if f.depth >= 12 {
 				unsupported("inlining depth exceeded at %s", fullKey(body))
 			}
+			same := 0
 			for _, fr := range cfg.frames {
 				if fr.fn == body {
-					unsupported("recursive call to %s without contract", fullKey(body))
+					same++
 				}
+			}
+			// small helpers (ft.SafeCall ...) are legitimately re-entered through
+			// callbacks; real recursion needs a contract
+			if same >= 3 {
+				unsupported("recursive call to %s without contract", fullKey(body))
 			}
 			x.inlined[fullKey(body)] = true
 			x.indexDebug(body)
@@ -331,14 +337,14 @@ func (x *Exec) recordCallResults(cfg *Config, tg target, res Val) {
 	default:
 		rs = []Val{res}
 	}
-	calls := x.heapGet(cfg.st, "$calls", SArr(SInt, x.idxSort()))
+	calls := x.heapGet(cfg.st, callsArrName(tg.sig), SArr(SInt, x.idxSort()))
 	k := Sub(Select(calls, *tg.unknown), x.intLit(1, x.idxSort()))
 	for pos, r := range rs {
 		tv, ok := r.(TV)
 		if !ok {
 			continue
 		}
-		name := fmt.Sprintf("$callret!%d!%s", pos, tv.T.Sort)
+		name := fmt.Sprintf("$callret!%d!%s!%s", pos, tv.T.Sort, sigKey(tg.sig))
 		arr := x.heapGet(cfg.st, name, SArr(SInt, SArr(x.idxSort(), tv.T.Sort)))
 		cfg.st.heap[name] = Store(arr, *tg.unknown, Store(Select(arr, *tg.unknown), k, tv.T))
 	}
@@ -411,8 +417,9 @@ func (x *Exec) traceCall(cfg *Config, tg target, args []Val) {
 	if tg.unknown == nil {
 		return
 	}
-	arr := x.heapGet(cfg.st, "$calls", SArr(SInt, x.idxSort()))
-	cfg.st.heap["$calls"] = Store(arr, *tg.unknown, Add(Select(arr, *tg.unknown), x.intLit(1, x.idxSort())))
+	name := callsArrName(tg.sig)
+	arr := x.heapGet(cfg.st, name, SArr(SInt, x.idxSort()))
+	cfg.st.heap[name] = Store(arr, *tg.unknown, Add(Select(arr, *tg.unknown), x.intLit(1, x.idxSort())))
 }
 
 // ---------------------------------------------------------------------------
@@ -757,4 +764,34 @@ func (x *Exec) callOrderChecks(cfg *Config, tg target, pos token.Pos) {
 	each("calls-once", func(fs []string) {
 		x.oblige(cfg, "call-once", tg.name+" not called before in this invocation", x.specBool(env, parse("calls("+fs[0]+") == old(calls("+fs[0]+"))")), nil, pos)
 	})
+}
+
+
+// sigKey / callsArrName: the ghost call counters and histories are kept per
+// function signature, so that calls of function values of different types
+// (which can never be the same function value) do not interfere.
+func sigKey(sig *types.Signature) string {
+	if sig == nil {
+		return "any"
+	}
+	var b strings.Builder
+	b.WriteString("f")
+	for i := 0; i < sig.Params().Len(); i++ {
+		b.WriteString("_" + sanitize(typeName(sig.Params().At(i).Type())))
+	}
+	b.WriteString("__")
+	for i := 0; i < sig.Results().Len(); i++ {
+		b.WriteString("_" + sanitize(typeName(sig.Results().At(i).Type())))
+	}
+	return b.String()
+}
+
+func callsArrName(sig *types.Signature) string { return "$calls!" + sigKey(sig) }
+
+func sigOfType(t types.Type) *types.Signature {
+	if t == nil {
+		return nil
+	}
+	s, _ := t.Underlying().(*types.Signature)
+	return s
 }
